@@ -1120,3 +1120,61 @@ Proof.
   intros H. destruct (denote s) as [[n u]|] eqn:Hd; [|exact I].
   intros Hr. rewrite (accept_size_complete s n u Hd Hr) in H. discriminate.
 Qed.
+
+(* ---------- every server object of one listener ---------- *)
+Lemma ns_is_new_server dflt g : ns_header (ns_timeouts dflt g) g = new_server dflt g.
+Proof.
+  unfold ns_header, ns_timeouts, new_server, header_loop. cbn [sv_read sv_rhdr sv_write sv_idle sv_maxhdr].
+  cbv zeta. destruct (0 <? fold_left hstep (map s_maxhdr g) 0); reflexivity.
+Qed.
+
+Lemma new_servers_tcp dflt g tls h2 quic : fst (new_servers dflt g tls h2 quic) = new_server dflt g.
+Proof. unfold new_servers. cbv zeta. cbn [fst]. apply ns_is_new_server. Qed.
+
+Lemma new_servers_h3_exists dflt g tls h2 quic :
+  snd (new_servers dflt g tls h2 quic) <> None <-> (tls = true /\ h2 = true /\ quic = true).
+Proof.
+  unfold new_servers, ns_h3. cbv zeta. cbn [snd]. destruct tls, h2, quic; cbn; split; intros H;
+    try (repeat split; reflexivity); try discriminate; try (exfalso; apply H; reflexivity);
+    try (destruct H as (A & B & C); discriminate).
+Qed.
+
+(* all servers of one listener carry the same header limit: the strictest one configured *)
+Lemma all_servers_same_header_limit dflt g tls h2 quic sv h3 :
+  new_servers dflt g tls h2 quic = (sv, Some h3) ->
+  sv = new_server dflt g /\ h3_maxhdr h3 = sv_maxhdr sv /\
+  ((forall c, In c g -> 0 <= s_maxhdr c) -> h3_maxhdr h3 = merge_header_limit (map s_maxhdr g)).
+Proof.
+  intros H. pose proof (new_servers_tcp dflt g tls h2 quic) as T. rewrite H in T. cbn [fst] in T.
+  unfold new_servers in H. cbv zeta in H. injection H as Hs Hq.
+  unfold ns_h3 in Hq. destruct (tls && h2 && quic); [|discriminate]. injection Hq as <-.
+  subst sv. split; [exact T|]. split; [reflexivity|]. intros Hpos.
+  destruct (new_server_fields dflt g) as (_ & _ & _ & _ & Hh).
+  transitivity (sv_maxhdr (new_server dflt g)); [rewrite <- T; reflexivity | exact (Hh Hpos)].
+Qed.
+
+(* ... but not the same idle timeout: the HTTP/3 server's QUICConfig is never set *)
+Definition site_idle7 : site :=
+  {| s_read := (false, 0); s_rhdr := (false, 0); s_write := (false, 0); s_idle := (true, 7); s_maxhdr := 2048 |}.
+Definition dflt_srv : server := {| sv_read := 100; sv_rhdr := 100; sv_write := 200; sv_idle := 300; sv_maxhdr := 0 |}.
+Lemma h3_idle_timeout_refuted :
+  exists dflt g sv h3, new_servers dflt g true true true = (sv, Some h3) /\
+    set_values (map s_idle g) = [7] /\ sv_idle sv = 7 /\ h3_maxhdr h3 = 2048 /\ h3_idle h3 = 0.
+Proof. exists dflt_srv, [site_idle7]. eexists. eexists. vm_compute. repeat split; reflexivity. Qed.
+
+(* ---------- sequences of uploads through one counting upstream ---------- *)
+(* every request of a sequence is answered as it would be alone, and the failure counter never moves: an
+   over-limit upload is not a failure of the backend, so the in-limit uploads after it still arrive *)
+Lemma upload_sequence_independent k limit mf qs :
+  1 <= mf ->
+  seq_run k limit mf 0 qs = map (fun q : bool * nat => (if limit <? Z.of_nat (snd q) then 413 else 200, 0)) qs.
+Proof.
+  intros Hm. assert (E : (mf <=? 0) = false) by (apply Z.leb_gt; lia).
+  induction qs as [|[ch len] qs IH]; [reflexivity|].
+  cbn [seq_run map snd]. unfold seq_step. rewrite E.
+  destruct k; destruct (limit <? Z.of_nat len); cbn; rewrite IH; reflexivity.
+Qed.
+
+(* the too-large error is mapped before the failure accounting: it is never counted *)
+Lemma too_large_never_counted bs : proxy_after_forward (Some TooLarge) bs = (413, false).
+Proof. reflexivity. Qed.
